@@ -28,6 +28,7 @@ def run(prop, tier, seed):
                 mod.thorough(prog, rep)
             from . import thorough as _th
             _th.self_validate(prop, rep)
+            _th.replay_assets(prop, rep)
     except AnalysisIncomplete as e:
         print('ANALYSIS-INCOMPLETE property=%s %s' % (prop, e))
         rep.notes.append('incomplete: %s' % e)
